@@ -67,7 +67,8 @@ def parseTable (s : String) : Option (List (String × String)) :=
 
 /-- roaring's `FromBuffer`, as observed by the harness on every slice the reader can reach -/
 def tableParse (t : List (String × String)) (s : Bytes) : Option String :=
-  match t.find? (fun p => p.1 == sliceKey s) with
+  let k := sliceKey s
+  match t.find? (fun p => p.1 == k) with
   | some (_, tok) => if tok == "E" then none else some tok
   | none => some "MISSING"   -- reported: the harness did not supply this slice
 
